@@ -67,3 +67,36 @@ Check C14_decoder_complete : forall buf off h ls nxt,
   name_at buf off h ls nxt -> (h <= 127)%nat -> (length ls <= 127)%nat -> wire_len ls <= 255 ->
   get_domain buf off = Ok (ls, nxt).
 Print Assumptions C14_decoder_complete.
+
+(* Names returned by the decoder are names the encoder accepts: labels of
+   1..63 octets, at most 255 octets in all (hence at most 127 labels).
+   This is the names part of C14_decoded_is_wf; the full statement
+     forall b m, decode b = Ok m -> wf_pkt m
+   is not yet proved (it needs the same for every RDATA kind and the OPT folding). *)
+Theorem C14_decoded_is_wf_partial : forall buf off n nxt,
+  bytes_ok buf = true -> get_domain buf off = Ok (n, nxt) -> wf_name n = true.
+Proof. exact get_domain_wf. Qed.
+Check C14_decoded_is_wf_partial : forall buf off n nxt,
+  bytes_ok buf = true -> get_domain buf off = Ok (n, nxt) -> wf_name n = true.
+Print Assumptions C14_decoded_is_wf_partial.
+
+(* decode . encode . decode = decode on names: a name the decoder returned from
+   any octets whatsoever is written by the encoder -- anywhere later, against
+   any valid dictionary -- such that the decoder returns it again.  (With the
+   decoder's former limits, 10 hops and no length bound, this is false: F18, F45.)
+   Full statement wanted (packet level, not yet proved):
+     forall m, wf_pkt m -> encode m = Ok b -> lenN b <= 65535 -> decode b = Ok m. *)
+Theorem C14_roundtrip_partial : forall b off n nxt buf kids,
+  bytes_ok b = true -> get_domain b off = Ok (n, nxt) ->
+  0 < lenN buf -> Forall (tree_ok buf []) kids ->
+  exists e kids', push_name (lenN buf) kids n = Ok (e, kids') /\
+    Forall (tree_ok (buf ++ e) []) kids' /\
+    get_domain (buf ++ e) (lenN buf) = Ok (n, lenN buf + lenN e).
+Proof. exact decoded_name_reencodes. Qed.
+Check C14_roundtrip_partial : forall b off n nxt buf kids,
+  bytes_ok b = true -> get_domain b off = Ok (n, nxt) ->
+  0 < lenN buf -> Forall (tree_ok buf []) kids ->
+  exists e kids', push_name (lenN buf) kids n = Ok (e, kids') /\
+    Forall (tree_ok (buf ++ e) []) kids' /\
+    get_domain (buf ++ e) (lenN buf) = Ok (n, lenN buf + lenN e).
+Print Assumptions C14_roundtrip_partial.
